@@ -6,7 +6,11 @@
     source. What is stated here concerns the logic of package-operator's own code at those places.
     NOT covered by any model: panics inside yaml, text/template, sprig, cel-go, jsonpath,
     go-containerregistry, apimachinery; nil map writes, integer division, stack exhaustion; the
-    run-time part of the check fuzzes those through the real code. *)
+    run-time part of the check fuzzes those through the real code.
+
+    The primary statements speak about the PRESENT tree. Five stages panicked in earlier trees; those
+    shapes survive as `_v0` models and `C19_v0_..._refuted` theorems, each naming the fixing commit, and
+    as `Fixed` entries of the site table that are not accepted by the inventory check any more. *)
 From Coq Require Import List Bool NArith ZArith String.
 From PKO Require Import NoPanic NoPanicProofs.
 From PKOCorr Require Import C19Corr.
@@ -15,10 +19,11 @@ Local Open Scope string_scope.
 
 (** ---- the site table *)
 
-(** every constructor of [site_id] is in the table, and no two entries share an identity *)
-Theorem C19_table_complete : forall i : site_id, In i all_sites.
-Proof. exact all_sites_complete. Qed.
-Print Assumptions C19_table_complete.
+(** every constructor of [site_id] is classified: it is in the table the inventory is checked against
+    exactly if it is not a historical (repaired) site; no two entries share an identity *)
+Theorem C19_table_classifies_every_site : forall i, is_accounted (descr i) = negb (historical i).
+Proof. exact accounted_iff_current. Qed.
+Print Assumptions C19_table_classifies_every_site.
 
 Theorem C19_table_identities_distinct : distinct_sites (map fst accounted) = true.
 Proof. exact accounted_identities_distinct. Qed.
@@ -26,14 +31,14 @@ Print Assumptions C19_table_identities_distinct.
 
 (** ---- (1) condition-map annotation and the phase collector *)
 
-(** The collector is total for every object list whose condition-map annotations follow the grammar
-    (which no validator of the present tree enforces). *)
-Theorem C19_collector_total_if_validated : forall phases objs,
-  forallb (fun o => condmap_ok (o_condmap o)) objs = true -> exists n, collect phases objs = Ok n.
-Proof. exact collector_total_if_validated. Qed.
-Print Assumptions C19_collector_total_if_validated.
+(** For every object list - whatever the condition-map annotations say - parsing, validation and the
+    collector return a result or an error. *)
+Theorem C19_collector_total : forall phases objs s, render_and_collect phases objs <> Panic s.
+Proof. exact collector_total. Qed.
+Print Assumptions C19_collector_total.
 
-(** The parser accepts exactly that grammar; the index expressions inside it are unreachable. *)
+(** The parser accepts exactly the grammar; the index expressions inside it are unreachable; the
+    collector itself is total on lists that follow the grammar (what parseObjects guarantees). *)
 Theorem C19_condmap_grammar : forall anno, condmap_ok anno = true <-> exists m, parse_condmap anno = Ok m.
 Proof. exact parse_condmap_ok_iff. Qed.
 Print Assumptions C19_condmap_grammar.
@@ -42,32 +47,23 @@ Theorem C19_condmap_index_sites_unreachable : forall anno s, parse_condmap anno 
 Proof. exact parse_condmap_no_panic. Qed.
 Print Assumptions C19_condmap_index_sites_unreachable.
 
-(** REFUTED (F-C19a): the default validators accept, the collector panics. *)
-Theorem C19_collector_panics_refuted :
-  exists phases objs, validators_accept phases objs = true /\ render_and_collect phases objs = Panic S_col_panic.
-Proof. exact collector_panics_refuted. Qed.
-Print Assumptions C19_collector_panics_refuted.
+Theorem C19_collector_total_if_validated : forall phases objs,
+  forallb (fun o => condmap_ok (o_condmap o)) objs = true -> exists n, collect phases objs = Ok n.
+Proof. exact collector_total_if_validated. Qed.
+Print Assumptions C19_collector_total_if_validated.
 
-(** Strongest true variant: the only Panic constructor reachable from validated objects is the explicit
-    panic of AddObjects, and only with an annotation outside the grammar. Missing for the full claim:
-    a validator for the annotation. *)
-Theorem C19_collector_partial : forall phases objs s,
-  render_and_collect phases objs = Panic s ->
-  s = S_col_panic /\ existsb (fun o => negb (condmap_ok (o_condmap o))) objs = true.
-Proof. exact collector_partial. Qed.
-Print Assumptions C19_collector_partial.
+(** HISTORICAL, F-C19a, fixed by commit 6890742 ("reject a malformed condition-map annotation when parsing
+    package objects"): before it the default validators accepted and the collector panicked. The present
+    pipeline is that one with exactly this panic turned into a violation. *)
+Theorem C19_v0_collector_panics_refuted :
+  exists phases objs, validators_accept phases objs = true /\ render_and_collect_v0 phases objs = Panic S_v0_col_panic.
+Proof. exact v0_collector_panics_refuted. Qed.
+Print Assumptions C19_v0_collector_panics_refuted.
 
-(** With the grammar enforced before the collector the stage is total, and nothing changes for
-    packages that follow it. *)
-Theorem C19_collector_fixed_total : forall phases objs s, render_and_collect_fixed phases objs <> Panic s.
-Proof. exact collector_fixed_total. Qed.
-Print Assumptions C19_collector_fixed_total.
-
-Theorem C19_collector_fixed_agrees : forall phases objs,
-  forallb (fun o => condmap_ok (o_condmap o)) objs = true ->
-  render_and_collect_fixed phases objs = render_and_collect phases objs.
-Proof. exact collector_fixed_agrees. Qed.
-Print Assumptions C19_collector_fixed_agrees.
+Theorem C19_collector_repairs_v0 : forall phases objs,
+  render_and_collect phases objs = repaired (render_and_collect_v0 phases objs).
+Proof. exact collector_repairs_v0. Qed.
+Print Assumptions C19_collector_repairs_v0.
 
 (** ---- (2) mapConditions over arbitrary status shapes *)
 
@@ -77,94 +73,83 @@ Print Assumptions C19_map_conditions_total.
 
 (** ---- (3) ObjectTemplate: conditions of the templated object, source items *)
 
-(** REFUTED (F-C19c): a current condition entry without `reason`. *)
-Theorem C19_template_conditions_refuted : exists gen obj, template_conditions gen obj = Panic S_ot_cond_reason.
-Proof. exact template_conditions_refuted. Qed.
-Print Assumptions C19_template_conditions_refuted.
+Theorem C19_template_conditions_total : forall gen obj s, template_conditions gen obj <> Panic s.
+Proof. exact template_conditions_total. Qed.
+Print Assumptions C19_template_conditions_total.
 
-(** Strongest true variant: only the four assertions can fire, and only on an entry one of whose
-    type/status/reason/message is not a string. Missing: comma-ok assertions. *)
-Theorem C19_template_conditions_partial : forall gen obj s,
-  template_conditions gen obj = Panic s -> In s ot_assert_sites /\ conditions_wellformed obj = false.
-Proof. exact template_conditions_partial. Qed.
-Print Assumptions C19_template_conditions_partial.
+(** for every behaviour of the regular expression, jsonpath and SetNestedField *)
+Theorem C19_template_source_total : forall key_empty submatches executed destination set_ok s,
+  copy_source_item key_empty submatches executed destination set_ok <> Panic s.
+Proof. exact template_source_total. Qed.
+Print Assumptions C19_template_source_total.
 
-Theorem C19_template_conditions_each_site_reachable :
-  forall s, In s ot_assert_sites -> exists gen obj, template_conditions gen obj = Panic s.
-Proof. exact template_conditions_each_site_reachable. Qed.
-Print Assumptions C19_template_conditions_each_site_reachable.
+(** HISTORICAL, F-C19c and F-C19d, fixed by commit a818a7e ("do not panic on malformed source items and
+    conditions in ObjectTemplates"): a current condition entry without `reason`; an empty destination,
+    which the CRD schema admits. *)
+Theorem C19_v0_template_conditions_refuted : exists gen obj, template_conditions_v0 gen obj = Panic S_v0_ot_cond_reason.
+Proof. exact v0_template_conditions_refuted. Qed.
+Print Assumptions C19_v0_template_conditions_refuted.
 
-(** REFUTED (F-C19d): an empty destination, which the CRD schema admits. *)
-Theorem C19_template_source_refuted :
-  exists executed, copy_source_item false (Some ["{.data.k}"; ".data.k"; ""]) (Some executed) "" true = Panic S_ot_destination0.
-Proof. exact template_source_refuted. Qed.
-Print Assumptions C19_template_source_refuted.
+Theorem C19_v0_template_source_refuted :
+  exists executed, copy_source_item_v0 false (Some ["{.data.k}"; ".data.k"; ""]) (Some executed) "" true = Panic S_v0_ot_destination0.
+Proof. exact v0_template_source_refuted. Qed.
+Print Assumptions C19_v0_template_source_refuted.
 
-(** Strongest true variant, for every behaviour of the regular expression, jsonpath and
-    SetNestedField: the only panic is the index of an empty destination. Missing: a length check
-    (or minLength in the CRD). *)
-Theorem C19_template_source_partial : forall key_empty submatches executed destination set_ok s,
-  copy_source_item key_empty submatches executed destination set_ok = Panic s ->
-  s = S_ot_destination0 /\ destination = "".
-Proof. exact template_source_partial. Qed.
-Print Assumptions C19_template_source_partial.
+Theorem C19_template_conditions_repairs_v0 : forall gen obj,
+  template_conditions gen obj = repaired (template_conditions_v0 gen obj).
+Proof. exact template_conditions_repairs_v0. Qed.
+Print Assumptions C19_template_conditions_repairs_v0.
 
-Theorem C19_template_source_fixed_total : forall key_empty submatches executed destination set_ok s,
-  copy_source_item_fixed key_empty submatches executed destination set_ok <> Panic s.
-Proof. exact template_source_fixed_total. Qed.
-Print Assumptions C19_template_source_fixed_total.
+Theorem C19_template_source_repairs_v0 : forall key_empty submatches executed destination set_ok,
+  copy_source_item key_empty submatches executed destination set_ok
+  = repaired (copy_source_item_v0 key_empty submatches executed destination set_ok).
+Proof. exact template_source_repairs_v0. Qed.
+Print Assumptions C19_template_source_repairs_v0.
 
 (** ---- (4) FromOCI *)
 
-(** REFUTED (F-C19b): the layer's tar stream breaks off inside the body of an entry FromOCI skips (a dot
-    file, a file outside package/), or Next fails otherwise. *)
-Theorem C19_oci_refuted :
-  from_oci [THeader (PUnder false) true; THeader (PUnder true) false] 0 = Panic S_imp_hdr
-  /\ from_oci [THeader POutside false] 0 = Panic S_imp_hdr
-  /\ from_oci [THeader (PUnder false) true; TError] 0 = Panic S_imp_hdr.
-Proof. exact oci_refuted. Qed.
-Print Assumptions C19_oci_refuted.
+Theorem C19_oci_total : forall evs files s, from_oci evs files <> Panic s.
+Proof. exact oci_total. Qed.
+Print Assumptions C19_oci_total.
 
-(** Strongest true variant: the only panic is the nil header after a read error. Missing: the
-    `err != nil` check. *)
-Theorem C19_oci_partial : forall evs files s,
-  from_oci evs files = Panic s -> s = S_imp_hdr /\ no_tar_error evs = false.
-Proof. exact oci_partial. Qed.
-Print Assumptions C19_oci_partial.
+(** HISTORICAL, F-C19b, fixed by commit e1805ac ("return tar read errors from FromOCI instead of
+    dereferencing a nil header"): the layer breaks off inside the body of an entry FromOCI skips, or
+    Next fails otherwise. *)
+Theorem C19_v0_oci_refuted :
+  from_oci_v0 [THeader (PUnder false) true; THeader (PUnder true) false] 0 = Panic S_v0_imp_hdr
+  /\ from_oci_v0 [THeader POutside false] 0 = Panic S_v0_imp_hdr
+  /\ from_oci_v0 [THeader (PUnder false) true; TError] 0 = Panic S_v0_imp_hdr.
+Proof. exact v0_oci_refuted. Qed.
+Print Assumptions C19_v0_oci_refuted.
 
-Theorem C19_oci_fixed_total : forall evs files s, from_oci_fixed evs files <> Panic s.
-Proof. exact oci_fixed_total. Qed.
-Print Assumptions C19_oci_fixed_total.
-
-Theorem C19_oci_fixed_agrees : forall evs files, no_tar_error evs = true -> from_oci_fixed evs files = from_oci evs files.
-Proof. exact oci_fixed_agrees. Qed.
-Print Assumptions C19_oci_fixed_agrees.
+Theorem C19_oci_repairs_v0 : forall evs files, from_oci evs files = repaired (from_oci_v0 evs files).
+Proof. exact oci_repairs_v0. Qed.
+Print Assumptions C19_oci_repairs_v0.
 
 (** ---- (4b) x-kubernetes-validations in the package's config schema *)
 
-(** REFUTED (F-C19f, found by the fuzz stage): one rule in a structurally valid schema; Compile is
+(** for every behaviour of the type-information and compilation library *)
+Theorem C19_xvalidations_total : forall se cn te tn rules dn s, compile_xvalidations se cn te tn rules dn <> Panic s.
+Proof. exact xvalidations_total. Qed.
+Print Assumptions C19_xvalidations_total.
+
+(** HISTORICAL, F-C19f (found by the fuzz stage), fixed by commit 35e301a ("compile x-kubernetes-validations
+    of the config schema with a CEL environment"): one rule in a structurally valid schema; Compile was
     handed a nil environment set. *)
-Theorem C19_xvalidations_refuted : compile_xvalidations false false false false 1 false false = Panic S_mv_nil_envset.
-Proof. exact xvalidations_refuted. Qed.
-Print Assumptions C19_xvalidations_refuted.
+Theorem C19_v0_xvalidations_refuted : compile_xvalidations_v0 false false false false 1 false = Panic S_v0_mv_nil_envset.
+Proof. exact v0_xvalidations_refuted. Qed.
+Print Assumptions C19_v0_xvalidations_refuted.
 
-(** Strongest true variant, for every behaviour of the type-information and compilation library: the
-    only panic needs a rule, no schema error and the nil environment set. Missing: a base environment. *)
-Theorem C19_xvalidations_partial : forall se cn te tn rules dn base s,
-  compile_xvalidations se cn te tn rules dn base = Panic s ->
-  s = S_mv_nil_envset /\ base = false /\ rules <> 0 /\ se = false.
-Proof. exact xvalidations_partial. Qed.
-Print Assumptions C19_xvalidations_partial.
+Theorem C19_xvalidations_agrees_with_v0 : forall se cn te tn rules dn,
+  compile_xvalidations_v0 se cn te tn rules dn = Panic S_v0_mv_nil_envset
+  \/ compile_xvalidations se cn te tn rules dn = compile_xvalidations_v0 se cn te tn rules dn.
+Proof. exact xvalidations_agrees_with_v0. Qed.
+Print Assumptions C19_xvalidations_agrees_with_v0.
 
-Theorem C19_xvalidations_total_with_env : forall se cn te tn rules dn s,
-  compile_xvalidations se cn te tn rules dn true <> Panic s.
-Proof. exact xvalidations_total_with_env. Qed.
-Print Assumptions C19_xvalidations_total_with_env.
+(** ---- (5) annotation owner strategy (multi-cluster ObjectSetPhase controllers) - OPEN *)
 
-(** ---- (5) annotation owner strategy (multi-cluster ObjectSetPhase controllers) *)
-
-(** REFUTED (F-C19e): owners annotation that is not a JSON list of references, on the cluster
-    object (reconcile and teardown) or on the desired object of the phase. *)
+(** REFUTED (F-C19e, boxcutter, open): owners annotation that is not a JSON list of references, on the
+    cluster object (reconcile, teardown, event handler) or on the desired object of the phase. *)
 Theorem C19_owner_annotation_refuted :
   phase_owner_reads false AAbsent (Some ANotJSON) = Panic S_bx_a_getOwnerReferences_panic
   /\ phase_owner_reads true AAbsent (Some (AJSON (JObj []))) = Panic S_bx_a_getOwnerReferences_panic
@@ -172,6 +157,8 @@ Theorem C19_owner_annotation_refuted :
 Proof. exact owner_annotation_refuted. Qed.
 Print Assumptions C19_owner_annotation_refuted.
 
+(** Strongest true variant: the only panic is getOwnerReferences' and needs an annotation that is not a
+    JSON list of references. Missing: an error return in boxcutter (or a guard in front of it). *)
 Theorem C19_owner_annotation_partial : forall teardown desired actual s,
   phase_owner_reads teardown desired actual = Panic s ->
   s = S_bx_a_getOwnerReferences_panic
@@ -180,18 +167,11 @@ Theorem C19_owner_annotation_partial : forall teardown desired actual s,
 Proof. exact owner_annotation_partial. Qed.
 Print Assumptions C19_owner_annotation_partial.
 
-(** ---- monitor and repaired shapes *)
+(** ---- monitor *)
 
 Theorem C19_monitor_sound : forall sc x, wellformed sc = true -> model sc = Some x -> monitor (sc, obs_of x) = true.
 Proof. exact monitor_sound. Qed.
 Print Assumptions C19_monitor_sound.
-
-Theorem C19_fixed_models_are_repairs :
-  (forall phases objs, render_and_collect_fixed phases objs = repaired (render_and_collect phases objs))
-  /\ (forall evs files, from_oci_fixed evs files = repaired (from_oci evs files))
-  /\ (forall k sm ex d ok, copy_source_item_fixed k sm ex d ok = repaired (copy_source_item k sm ex d ok)).
-Proof. exact fixed_models_are_repairs. Qed.
-Print Assumptions C19_fixed_models_are_repairs.
 
 (** ---- the hypotheses are satisfiable *)
 
@@ -202,14 +182,6 @@ Example C19_validated_objects_exist :
   /\ render_and_collect ["deploy"] objs = Ok 1%N.
 Proof. exact validated_objects_exist. Qed.
 Print Assumptions C19_validated_objects_exist.
-
-Example C19_wellformed_templated_exists :
-  let obj := [("metadata", JObj [("generation", JInt 1)]);
-              ("status", JObj [("conditions", JArr [JObj [("type", JStr "Ready"); ("status", JStr "True");
-                 ("reason", JStr "Ok"); ("message", JStr "all good"); ("observedGeneration", JInt 1)]])])] in
-  conditions_wellformed obj = true /\ template_conditions 1 obj = Ok ["Ready"].
-Proof. exact wellformed_templated_exists. Qed.
-Print Assumptions C19_wellformed_templated_exists.
 
 Example C19_clean_stream_exists :
   no_tar_error [THeader (PUnder false) true; THeader (PUnder true) true] = true
